@@ -36,6 +36,7 @@ func genC04(t *rapid.T) C04Case {
 		cfg.Goto = true
 		cfg.RichLits = true
 		cfg.StringCalls = true
+		cfg.BlockReturn = true
 		cfg.Bitops = true
 		cfg.MaxStats = 8
 		cfg.Prefix = fmt.Sprintf("f%d", i)
